@@ -163,7 +163,7 @@ func (c20) Run(t *tape.Tape, tier Tier) *Result {
 		go func() {
 			defer wg.Done()
 			for i := range next {
-				ctx, cancel := context.WithTimeout(context.Background(), 20*time.Second)
+				ctx, cancel := context.WithTimeout(context.Background(), 90*time.Second)
 				req := &errgrpc.EchoRequest{Text: hs[assign[i]].id}
 				cctx, ccancel := context.WithCancel(ctx)
 				if tagged[i] {
